@@ -107,4 +107,13 @@ def run(facts, rep, tier, ctx):
     # R02.3 Table P is backend independent
     pr = PathRules(facts, ws)
     pr.table_p(rep, "R02.3")
+    # R02.4 the in-memory handles are cursors over the file's bytes like std::fs::File (the physical side hands out
+    # std handles, R14.1): seek bases, read window, writer publication
+    import os
+    from ..handlerules import Handles
+    from ..panics import Discharger, load_records
+    D = Discharger(facts, load_records(os.path.join(ctx["V"], "rules", "panic_records.json")))
+    h = Handles(facts, False, D)
+    k = h.seek_rules(rep, "R02.4", "R02.4") + h.read_rules(rep, "R02.4") + h.writer_rules(rep, "R02.4", "R02.4", "R02.4t")
+    rep.floor("in-memory handle obligations", k, 23)
     rep.assume("Table O is what Linux/POSIX enforce for the std calls; O_APPEND seek semantics are excluded by the property")
